@@ -94,7 +94,7 @@ def run(ctx, model=None):
     ]
     for tl, f, tag in corpus:
         check_case(ctx, tl, f, "corpus:" + tag, model)
-    N = 400 if ctx.quick() else 20000
+    N = 400 if ctx.quick() else 150000
     for k in range(N):
         tl, f = gen.random_digraph(rng)
         check_case(ctx, tl, f, f"digraph#{k}", model)
